@@ -74,7 +74,9 @@ class G:
         if c == 'leaf':
             return self.leaf(ty, env)
         if c == 'if':
-            a, b = self.gen('I', env, d - 1, pure), self.gen('I', env, d - 1, pure)
+            # operands of a conditional are evaluated left to right; the extended grammar puts effects there in every mode
+            opeff = eff if self.ext else pure
+            a, b = self.gen('I', env, d - 1, opeff), self.gen('I', env, d - 1, opeff)
             cmp_ = r.choice(['==', '!=', '<', '<=', '>', '>='])
             if r.random() < 0.3:
                 cond = f"{a} {cmp_} 0"
